@@ -348,6 +348,8 @@ pub fn generate(g: &mut Gen, thorough: bool) {
     for def in [
         "helmert translation=1,2,x,3", "helmert translation=1,2,,3", "helmert translation=,1,2,3", "helmert translation=1,2,3,", "helmert rotation=1,q,3 convention=position_vector",
         "stack push=1,,2", "stack push=1,x", "axisswap order=2,1,q", "axisswap order=2,,1", "stack roll=2,", "helmert translation=1;2;3", "helmert translation=1,2,3x",
+        // (a key with nothing behind the equals sign names no series at all)
+        "stack push=", "stack pop=", "axisswap order=", "helmert translation=", "addone | stack push= | addone",
     ] {
         g.push(format!("S_C16E\t{}", crate::wire::escape(def)), "oracle-bad-series", true);
         g.push(super::op_line("default", &[], &[], def, "tree", "F", ""), "typed-bad-series", true);
